@@ -2,7 +2,7 @@
 from __future__ import annotations
 
 from ..common import Ob
-from ..e3 import replay, skeleton_obs  # noqa: F401
+from ..e3 import skeleton_obs
 
 META = {
     "level": "model_checking",
@@ -13,4 +13,24 @@ META = {
 def obligations(tier: str) -> list[Ob]:
     obs = skeleton_obs("C10", "model", ["tri_", "reqd_"], tier, label="tristate")
     obs += skeleton_obs("C10", "endpoint", ["req_"], tier, names=["params"], label="unset-not-sent")
+    from ..e2 import harness_ob
+
+    q = tier == "quick"
+    obs.append(
+        harness_ob(
+            "shared_enum_keeps_own_requiredness", "C06_enums.py", tier, funcs=["enum_name_taken"], timeout=200 if q else 600, cpus=1, replay_func="vlib.props.C10:replay",
+            encoded=["openapi_python_client.parser.properties.enum_property:EnumProperty.build", "openapi_python_client.parser.properties.literal_enum_property:LiteralEnumProperty.build"],
+            bounds={"second use of one enum class": "required x required x default, both enum styles"},
+        )
+    )
     return obs
+
+
+def replay(w: dict) -> dict:
+    if w.get("skeleton"):
+        from ..e3 import replay as r3
+
+        return r3(w)
+    from ..e2 import replay as r2
+
+    return r2(w)
